@@ -37,6 +37,15 @@ namespace ratio
 
   private:
     type &tp;
+#ifdef ORATIO_VERIF
+  public:
+    static size_t &verif_counter() noexcept
+    {
+      static size_t c = 0;
+      return c;
+    }
+    const size_t verif_seq = verif_counter()++; // creation sequence number (verification hook, add-only)..
+#endif
   };
 
   class bool_item : public item
